@@ -445,9 +445,10 @@ func (h *handshake) execute() *tcpip.Error {
 	resendWaker := sleep.Waker{}
 	// 设置1s超时
 	timeOut := time.Duration(time.Second)
-	rt := time.AfterFunc(verifStretch(timeOut), func() {
+	rt := time.AfterFunc(timeOut, func() {
 		resendWaker.Assert()
 	})
+	verifAdopt(rt, timeOut, &resendWaker)
 	defer rt.Stop()
 
 	// Set up the wakers.
@@ -499,7 +500,8 @@ func (h *handshake) execute() *tcpip.Error {
 			if timeOut > 60*time.Second {
 				return tcpip.ErrTimeout
 			}
-			rt.Reset(verifStretch(timeOut))
+			rt.Reset(timeOut)
+			verifRestretch(rt, timeOut)
 			// 重新发送syn报文
 			sendSynTCP(&h.ep.route, h.ep.id, h.flags, h.iss, h.ackNum, h.rcvWnd, synOpts)
 
@@ -1077,9 +1079,10 @@ func (e *endpoint) protocolMainLoop(handshake bool) *tcpip.Error {
 				if n&notifyClose != 0 && closeTimer == nil {
 					// Reset the connection 3 seconds after the
 					// endpoint has been closed.
-					closeTimer = time.AfterFunc(verifStretch(3*time.Second), func() {
+					closeTimer = time.AfterFunc(3*time.Second, func() {
 						closeWaker.Assert()
 					})
+					verifAdopt(closeTimer, 3*time.Second, &closeWaker)
 				}
 
 				if n&notifyDrain != 0 {
